@@ -220,6 +220,15 @@ GcStrip == /\ pc = "gcstrip" /\ todo # <<>>
                    \/ /\ Crash("update", IdStr(o)) /\ UNCHANGED <<store, gcd>>
                       /\ (IF Exists(o) THEN NoteDelete(o) ELSE UNCHANGED bad)
            /\ UNCHANGED <<refs, want, rfail, nextId, obs, des, wantR, envs, startS, startR>>
+\* the environment in the middle of a collection: the resource the collector is about to strip is removed out of band
+\* (a user deletes it, its provider finalises it) - the collector's Update / Delete then answer NotFound, which it ignores.
+\* (Pipeline only: the P&T associator interleaves its reads with the collection, the replay cannot place the step there.)
+GcVanish == /\ Mode = "Pipeline" /\ pc = "gcstrip" /\ todo # <<>> /\ envs < MaxEnv
+            /\ LET o == todo[1] IN
+               /\ Exists(o) /\ Mine(o)
+               /\ store' = Gone(o) /\ Log(H("env", "remove", IdStr(o), ""))
+            /\ envs' = envs + 1 /\ quiet' = FALSE
+            /\ UNCHANGED <<refs, want, rfail, nextId, pc, obs, des, wantR, todo, recs, faults, pfail, startS, startR, gcd, steady, bad>>
 GcDelete == /\ pc = "gcdelete"
             /\ LET o == todo[1] IN
                \/ /\ Ok("delete", IdStr(o)) /\ store' = Gone(o) /\ todo' = Tail(todo) /\ pc' = "gcstrip" /\ Stay /\ UNCHANGED pfail
@@ -293,7 +302,7 @@ Status == /\ pc = "status"
              \/ Crash("update-status", "xr")
           /\ UNCHANGED <<store, refs, want, rfail, nextId, obs, des, wantR, envs, pfail, startS, startR, gcd, bad>>
 
-Rec == Start \/ Observe \/ ObserveDone \/ Desire \/ Alloc \/ PipeAllocExit \/ PtAllocExit \/ PtGc \/ GcStrip \/ GcDelete \/ GcDone
+Rec == Start \/ Observe \/ ObserveDone \/ Desire \/ Alloc \/ PipeAllocExit \/ PtAllocExit \/ PtGc \/ GcStrip \/ GcVanish \/ GcDelete \/ GcDone
        \/ PersistRefs \/ ApplyGet \/ ApplyW \/ ApplyDone \/ XrStatus \/ Status
 Next == Env \/ Rec
 Spec == Init /\ [][Next]_vars
